@@ -11,7 +11,7 @@
  "cbmc": ["--malloc-may-fail", "--malloc-fail-null", "--unwindset", "growsocketlist.0:5"],
  "loop_contracts": false,
  "bounded": true,
- "bound": "the record-initialisation loop of growsocketlist (inlined here) is unwound NS_Q+1 times: complete for descriptors < NS_Q = 4 (unwinding assertion checked); the loop is closed by its loop contract in C04/net_growsocketlist",
+ "bound": "the record-initialisation loop of growsocketlist (inlined here) is unwound NS_Q+1 times: complete for descriptors < NS_Q = 4 (unwinding assertion checked)",
  "timeout": 300,
  "assumptions": ["object-size parameters: descriptors < NS_Q, <= NF_Q pollfd entries; capacity of S (records) / capacity of fds (entries) / descriptor number are constants per REGCASE: 4/0/0 4/2/1 4/2/3 4/4/2 0/0/0 0/0/3 1/1/0 1/1/1 1/1/3 2/3/2 2/3/3 2/1/1 (CBMC's realloc model needs concrete sizes); invalid arguments: C04/net_badargs",
                  "events_mkrec / events_freerec replaced by their contracts (models/ev_rec.h; enforced on the real functions in C04/rec_*)",
